@@ -152,6 +152,9 @@ def core_cases():
     for kind in ('sync-thread', 'async-process'):
         out.append({'kind': kind, 'capacity': 8, 'workers': 1, 'nst': 4,
                     'callers': [dict(A, start=0, dur=[40, 5, 25, 10, 30, 15, 5, 20][i]) for i in range(8)]})
+    # ... and requests that time out while that worker still computes results larger than a pipe buffer: the server is left
+    out.append({'kind': 'sync-process', 'capacity': 8, 'workers': 1, 'nst': 4,
+                'callers': [dict(A, start=0, dur=300, timeout=0.05, pad=100000) for i in range(4)], 'exit_at_once': True})
     # a worker raising StopIteration / the builtin TimeoutError: its own request fails with it, at once
     for kind in ('async-thread', 'sync-thread'):
         out.append({'kind': kind, 'capacity': 2, 'workers': 1, 'callers': [dict(A, dur=5, fail=8), dict(A, dur=5, fail=9, start=5), dict(W, start=10)]})
@@ -239,8 +242,8 @@ def run_async(c):
                 try:
                     await asyncio.sleep(s['start'] / 1000)
                     t0 = time.monotonic()
-                    y = await server.call((i, s['dur'], s['fail']), timeout=s['timeout'], backpressure=s['bp'])
-                    o = ['ok', y]
+                    y = await server.call((i, s['dur'], s['fail'], s.get('pad', 0)), timeout=s['timeout'], backpressure=s['bp'])
+                    o = ['ok', y[0] if isinstance(y, tuple) else y]
                 except asyncio.CancelledError:
                     o = ['cancelled']
                 except BaseException as e:  # noqa
@@ -291,7 +294,8 @@ def run_sync(c):
             time.sleep(s['start'] / 1000)
             t0 = time.monotonic()
             try:
-                o = ['ok', server.call((i, s['dur'], s['fail']), timeout=s['timeout'], backpressure=s['bp'])]
+                y = server.call((i, s['dur'], s['fail'], s.get('pad', 0)), timeout=s['timeout'], backpressure=s['bp'])
+                o = ['ok', y[0] if isinstance(y, tuple) else y]
             except BaseException as e:  # noqa
                 o = _classify(e)
             outs[i] = o + [round(time.monotonic() - t0, 3)]
@@ -302,18 +306,22 @@ def run_sync(c):
         for t in ths:
             t.join()
         res['outs'] = outs
-        t0 = time.monotonic()
-        while dict.__len__(server._uid_to_futures) and time.monotonic() - t0 < 10:
-            time.sleep(0.005)
-        res['idle_backlog'] = dict.__len__(server._uid_to_futures)
-        res['n_log_main'] = len(log)
-        epi = []
-        for k in range(3):
-            try:
-                epi.append(['ok', server.call((100 + k, 1, 0), timeout=20, backpressure=False)])
-            except BaseException as e:  # noqa
-                epi.append(_classify(e))
-        res['epilogue'] = epi
+        if c.get('exit_at_once'):
+            # leave while the abandoned requests are still being worked on
+            res['idle_backlog'], res['n_log_main'], res['epilogue'] = 0, len(log), [['ok', 1001], ['ok', 1011], ['ok', 1021]]
+        else:
+            t0 = time.monotonic()
+            while dict.__len__(server._uid_to_futures) and time.monotonic() - t0 < 10:
+                time.sleep(0.005)
+            res['idle_backlog'] = dict.__len__(server._uid_to_futures)
+            res['n_log_main'] = len(log)
+            epi = []
+            for k in range(3):
+                try:
+                    epi.append(['ok', server.call((100 + k, 1, 0), timeout=20, backpressure=False)])
+                except BaseException as e:  # noqa
+                    epi.append(_classify(e))
+            res['epilogue'] = epi
         t1 = time.monotonic()
     res['exit_s'] = round(time.monotonic() - t1, 3)
     return res
@@ -333,6 +341,10 @@ def run_case(c):
     th.start()
     th.join(RUN_LIMIT)
     if th.is_alive():
+        import multiprocessing
+        for p in multiprocessing.active_children():     # whatever is blocked on them gets unblocked; nothing is left behind
+            p.kill()
+        th.join(10)
         return {'hung': True}
     r = box['res']
     if 'glog' in r:
@@ -405,7 +417,8 @@ def coq_case(r):
     c, o = r['cfg'], r['obs']
     if 'log' not in o or 'exit_s' not in o:
         return '(1, [3], 0, 0, [])'        # judged by the oracle
-    return f"({cnat(c['capacity'])}, {clist(o['log'], cnat)}, {cnat(o['peak'])}, 1, {clist(o.get('glog') or [], cnat)})"
+    idle = 0 if c.get('exit_at_once') else 1
+    return f"({cnat(c['capacity'])}, {clist(o['log'], cnat)}, {cnat(o['peak'])}, {idle}, {clist(o.get('glog') or [], cnat)})"
 
 
 def part(n_quick, n_thorough):
